@@ -417,6 +417,30 @@ def get_flow(proj: Project, fi: FuncInfo) -> Flow:
     return cache[fi.qualname]
 
 
+def bound_args(proj, fi_caller: FuncInfo, call: ast.Call) -> Dict[str, ast.AST]:
+    """{parameter name: argument expression} of a call, whether the argument was passed by position or by keyword.
+    Needs the callee (resolved through the call graph); for an unresolved callee only the keyword arguments are known."""
+    out: Dict[str, ast.AST] = {k.arg: k.value for k in call.keywords if k.arg}
+    try:
+        from .callgraph import get_cg
+        targets = [t for t in get_cg(proj).resolve(fi_caller, call) if isinstance(t, FuncInfo)]
+    except Exception:
+        targets = []
+    if targets:
+        t = targets[0]
+        if t.short == '__post_init__' and len(targets) > 1:
+            t = targets[1]
+        params = [a.arg for a in t.node.args.args]
+        if params and params[0] in ('self', 'cls') and t.cls is not None:
+            params = params[1:]
+        for i, a in enumerate(call.args):
+            if isinstance(a, ast.Starred):
+                break
+            if i < len(params):
+                out.setdefault(params[i], a)
+    return out
+
+
 def arg_of(call: ast.Call, fi_callee: Optional[FuncInfo], pname: str, pos: Optional[int] = None):
     """Expression passed for parameter `pname` at a call (None if omitted)."""
     for kw in call.keywords:
